@@ -112,6 +112,38 @@ PIN_OPCODES = ['_PARAM("current-exception-handler", _I(SEXP_PROCEDURE)),',
 
 
 # ---------------------------------------------------------------------------- tolerant reader (quasiquote, chars, vectors)
+
+# round 4 pins (text of /repo HEAD eeb17b2)
+PIN_VM.update({'eval.c: parameter_ref/dk/thread_parameters': 'sexp sexp_parameter_ref (sexp ctx, sexp param) { #if SEXP_USE_GREEN_THREADS sexp ls; for '
+                                               '(ls=sexp_context_params(ctx); sexp_pairp(ls); ls=sexp_cdr(ls)) if (sexp_caar(ls) == param) return '
+                                               'sexp_cdar(ls); #endif return sexp_opcodep(param) && sexp_opcode_data(param) && '
+                                               'sexp_pairp(sexp_opcode_data(param)) ? sexp_cdr(sexp_opcode_data(param)) : SEXP_FALSE; } #if '
+                                               'SEXP_USE_GREEN_THREADS sexp sexp_dk (sexp ctx, sexp self, sexp_sint_t n, sexp val) { if '
+                                               '(sexp_not(val)) { return sexp_context_dk(ctx) ? sexp_context_dk(ctx) : SEXP_FALSE; } else { '
+                                               'sexp_context_dk(ctx) = val; return SEXP_VOID; } } #endif sexp sexp_thread_parameters (sexp ctx, sexp '
+                                               'self, sexp_sint_t n) { sexp res = sexp_context_params(ctx); return res ? res : SEXP_NULL; } sexp '
+                                               'sexp_thread_parameters_set (sexp ctx, sexp self, sexp_sint_t n, sexp new) { sexp_context_params(ctx) '
+                                               '= new; return SEXP_VOID; }',
+ 'vm.c: PARAMETER_REF': 'case SEXP_OP_PARAMETER_REF: _ALIGN_IP(); sexp_context_top(ctx) = top; tmp2 = _WORD0; ip += sizeof(sexp); for '
+                        '(tmp1=sexp_context_params(ctx); sexp_pairp(tmp1); tmp1=sexp_cdr(tmp1)) if (sexp_caar(tmp1) == tmp2) { '
+                        '_PUSH(sexp_car(tmp1)); goto loop; } _PUSH(sexp_opcode_data(tmp2)); break; #endif',
+ 'vm.c: call_error_handler+RAISE': 'call_error_handler: if (! sexp_exception_procedure(_ARG1)) sexp_exception_procedure(_ARG1) = self; #if '
+                                   'SEXP_USE_FULL_SOURCE_INFO if (sexp_not(sexp_exception_source(_ARG1)) && '
+                                   'sexp_procedurep(sexp_exception_procedure(_ARG1)) && sexp_procedure_source(sexp_exception_procedure(_ARG1))) '
+                                   'sexp_exception_source(_ARG1) = sexp_lookup_source_info(sexp_exception_procedure(_ARG1), '
+                                   '(ip-sexp_bytecode_data(bc))); #endif case SEXP_OP_RAISE: sexp_context_top(ctx) = top; if '
+                                   '(sexp_trampolinep(_ARG1)) { tmp1 = sexp_trampoline_procedure(_ARG1); tmp2 = sexp_trampoline_args(_ARG1); if '
+                                   '(sexp_trampoline_abortp(_ARG1)) { /* abort - do not catch */ _ARG1 = tmp2; goto end_loop; } top--; if '
+                                   '(sexp_not(tmp1) && sexp_pairp(tmp2)) { /* noop trampoline is */ _PUSH(sexp_car(tmp2)); /* a wrapped exception */ '
+                                   'goto loop; } goto apply1; } tmp1 = sexp_parameter_ref(ctx, sexp_global(ctx, SEXP_G_ERR_HANDLER)); '
+                                   'sexp_context_last_fp(ctx) = fp; if (! sexp_procedurep(tmp1)) { #if SEXP_USE_GREEN_THREADS '
+                                   'sexp_context_errorp(ctx) = 1; #endif if (!sexp_exceptionp(_ARG1)) { _ARG1 = sexp_make_exception(ctx, '
+                                   'SEXP_UNCAUGHT, SEXP_FALSE, _ARG1, self, SEXP_FALSE); } sexp_context_top(ctx) = top; '
+                                   'sexp_exception_stack_trace(_ARG1) = sexp_get_stack_trace(ctx); goto end_loop; } stack[top] = SEXP_ONE; '
+                                   'stack[top+1] = sexp_make_fixnum(ip-sexp_bytecode_data(bc)); stack[top+2] = self; stack[top+3] = '
+                                   'sexp_make_fixnum(fp); top += 4; self = tmp1; bc = sexp_procedure_code(self); ip = sexp_bytecode_data(bc); cp = '
+                                   'sexp_procedure_vars(self); fp = top-4; break;'})
+
 def _tokens(text):
     i, n = 0, len(text)
     while i < n:
@@ -317,10 +349,23 @@ def scan_vm(repo):
         return {"vm.c": "MISSING"}
     text = open(p, errors="replace").read()
     for name, start, stop in (("RESUMECC+CALLCC", "  case SEXP_OP_RESUMECC:", "  case SEXP_OP_APPLY1:"),
-                              ("grow/save/restore", "static int sexp_grow_stack (", "#if SEXP_USE_VERIF_HOOKS")):
+                              ("grow/save/restore", "static int sexp_grow_stack (", "#if SEXP_USE_VERIF_HOOKS"),
+                              # round 4: the VM side of raise (handler looked up in the per-thread alist and CALLED from the
+                              # raise point) and of a parameter read, which coq/C06/Machine.v mirrors by hand
+                              ("call_error_handler+RAISE", "  call_error_handler:", "  case SEXP_OP_RESUMECC:"),
+                              ("PARAMETER_REF", "  case SEXP_OP_PARAMETER_REF:", "  case SEXP_OP_STACK_REF:")):
         a = text.find(start)
         b = text.find(stop, a + 1) if a >= 0 else -1
         out["vm.c: " + name] = " ".join(text[a:b].split()) if a >= 0 and b > a else "NOT FOUND"
+    # round 4: the C primitives holding the per-thread dynamic state (parameter alist lookup, %dk, thread-parameters[-set!])
+    pe = os.path.join(repo, "eval.c")
+    if not os.path.exists(pe):
+        out["eval.c"] = "MISSING"
+        return out
+    text = open(pe, errors="replace").read()
+    a = text.find("sexp sexp_parameter_ref (sexp ctx, sexp param) {")
+    b = text.find("void sexp_set_parameter (", a + 1) if a >= 0 else -1
+    out["eval.c: parameter_ref/dk/thread_parameters"] = " ".join(text[a:b].split()) if a >= 0 and b > a else "NOT FOUND"
     return out
 
 
@@ -363,7 +408,7 @@ def check(ctx):
     for k in sorted(set(vm) | set(PIN_VM)):
         if vm.get(k) != PIN_VM.get(k):
             ok = False
-            ctx.broken("mirror:" + k, "%s no longer has the text coq/C06/StackModel.v mirrors (callcc / resumecc_g / restore_stack_g / grow_stack); now: %s" % (k, (vm.get(k) or "")[:700]))
+            ctx.broken("mirror:" + k, "%s no longer has the text coq/C06/StackModel.v (callcc / resumecc_g / restore_stack_g / grow_stack) or coq/C06/Machine.v (VM raise, parameter read, %%dk) mirrors; now: %s" % (k, (vm.get(k) or "")[:700]))
     oc = scan_opcodes(B.REPO)
     if oc != PIN_OPCODES:
         ok = False
